@@ -100,8 +100,9 @@ PROPS = {
                 streams=dict(quick=[('scenario', ['-dir', '@ROOT/corpus/C02']), ('hist', ['-n', 400, '-scans', 10, '-focus', 'cooldown']),
                                     ('hist', ['-n', 4, '-scans', 5, '-focus', 'cooldown', '-slow'])],
                              thorough=[('scenario', ['-dir', '@ROOT/corpus/C02']), ('hist', ['-n', 20000, '-scans', 12, '-focus', 'cooldown']),
-                                       ('hist', ['-n', 60, '-scans', 6, '-focus', 'cooldown', '-slow'])],
-                             search=[('hist', ['-n', 1500, '-scans', 12, '-focus', 'cooldown']), ('hist', ['-n', 12, '-scans', 6, '-focus', 'cooldown', '-slow'])]),
+                                       ('hist', ['-n', 60, '-scans', 6, '-focus', 'cooldown', '-slow']), ('hist', ['-n', 200, '-scans', 8, '-focus', 'fleet'])],
+                             search=[('hist', ['-n', 1500, '-scans', 12, '-focus', 'cooldown']), ('hist', ['-n', 12, '-scans', 6, '-focus', 'cooldown', '-slow']),
+                                     ('hist', ['-n', 30, '-scans', 8, '-focus', 'fleet'])]),
                 aspects=['hist:writes', 'hist:state'], monitors=['C02'],
                 theorems=['Esc.P.C02_quiet_scan', 'Esc.P.C02_history_quiet', 'Esc.P.C02_release', 'Esc.P.C02_release_scan', 'Esc.P.C02_armed',
                           'Esc.P.increaseSize_none', 'Esc.P.runOnce_quiet'],
@@ -120,9 +121,9 @@ PROPS = {
                            'Tie: hist correspondence on taint-adding and taint-removing updates; the same predicate monitored on observed journals.',
                 level_note=LEVEL_NOTE),
     'C04': dict(level='proof', module='EscProofs.P.C04',
-                streams=dict(quick=[('scenario', ['-dir', '@ROOT/corpus/C04']), ('hist', ['-n', 400, '-scans', 10]), ('awsops', ['-n', 2000]), ('fleetops', ['-n', 96])],
-                             thorough=[('scenario', ['-dir', '@ROOT/corpus/C04']), ('hist', ['-n', 20000, '-scans', 12]), ('awsops', ['-n', 100000]), ('fleetops', ['-n', 1600])],
-                             search=[('hist', ['-n', 1500, '-scans', 12]), ('awsops', ['-n', 20000]), ('fleetops', ['-n', 300])]),
+                streams=dict(quick=[('scenario', ['-dir', '@ROOT/corpus/C04']), ('hist', ['-n', 400, '-scans', 10]), ('awsops', ['-n', 2000]), ('fleetops', ['-n', 96]), ('hist', ['-n', 8, '-scans', 6, '-focus', 'fleet'])],
+                             thorough=[('scenario', ['-dir', '@ROOT/corpus/C04']), ('hist', ['-n', 20000, '-scans', 12]), ('awsops', ['-n', 100000]), ('fleetops', ['-n', 1600]), ('hist', ['-n', 200, '-scans', 8, '-focus', 'fleet'])],
+                             search=[('hist', ['-n', 1500, '-scans', 12]), ('awsops', ['-n', 20000]), ('fleetops', ['-n', 300]), ('hist', ['-n', 40, '-scans', 8, '-focus', 'fleet'])]),
                 aspects=['hist:resize', 'cached-desired'], monitors=['C04'],
                 theorems=['Esc.P.C04_bound', 'Esc.P.C04_clamp_exact', 'Esc.P.C04_history'],
                 technique='Lean 4 theorem (walk of the journal with the running desired size; exact characterisation of IncreaseSize requests) + differential correspondence and runtime monitor',
